@@ -1,9 +1,134 @@
 import ALV.Common.Json
+import ALV.Model.C12
+import ALV.Spec.C12
 namespace ALV.Driver.C12
-open ALV ALV.J
+open ALV ALV.J ALV.C12
 
-/-- stub: the C12 slice is not built yet -/
-def handle (entry : String) (_j : Json) : Except String Json :=
-  throw s!"C12: unknown entry {entry}"
+/-- a Gaussian rational travels as `[re, im]` (or a bare rational) -/
+def getG (j : Json) : Except String GRat :=
+  match j with
+  | Json.arr [r, i] => do pure ⟨← getRat r, ← getRat i⟩
+  | _ => do pure ⟨← getRat j, 0⟩
+
+def gToJson (g : GRat) : Json := Json.arr [ratToJson g.re, ratToJson g.im]
+
+def respToJson : Resp GRat → Json
+  | .valueError => Json.mkObj [("err", Json.str "ValueError")]
+  | .typeError => Json.mkObj [("err", Json.str "TypeError")]
+  | .nan => Json.str "nan"
+  | .val v => gToJson v
+
+def getFilt (j : Json) : Except String (List GRat × List GRat) := do
+  pure (← getList getG (← field j "b"), ← getList getG (← field j "a"))
+
+partial def getBank (j : Json) : Except String (Bank GRat) :=
+  match j.getObjVal? "cascade", j.getObjVal? "parallel" with
+  | some (Json.arr ms), _ => do pure (.cascade (← ms.mapM getBank))
+  | _, some (Json.arr ms) => do pure (.parallel (← ms.mapM getBank))
+  | _, _ => do
+    let (b, a) ← getFilt j
+    pure (.filt b a)
+
+/-- does constructing the object raise?  (a leaf without denominator term) -/
+partial def bankCtor (spec : Bool) : Bank GRat → Bool
+  | .filt b a => if spec then a.all (fun c => decide (c = 0)) else (mkFilter b a).isNone
+  | .cascade ms => ms.any (bankCtor spec)
+  | .parallel ms => ms.any (bankCtor spec)
+
+def optG : Option GRat → Json
+  | none => Json.str "nan"
+  | some v => gToJson v
+
+def handle (entry : String) (j : Json) : Except String Json := do
+  match entry with
+  | "freq" =>
+    -- one filter, a container of points w = exp(-j*freq)
+    let (b, a) ← getFilt j
+    let ws ← getList getG (← field j "ws")
+    pure <| Json.mkObj [
+      ("model", arr respToJson (elementwise (respOfFilter b a) ws)),
+      ("spec", arr respToJson (elementwise (respSpec b a) ws)),
+      ("den", arr gToJson (ws.map (evalDirect a))),
+      -- does the constructor raise (independently of any frequency)?
+      ("ctor_model", Json.bool (mkFilter b a).isNone),
+      ("ctor_spec", Json.bool (a.all (fun c => decide (c = 0)))),
+      ("horner", Json.bool (match mkFilter b a with
+          | some f => f.num.all (fun t => decide (0 ≤ t.1))
+          | none => false))]
+  | "freqd" =>
+    -- one filter given as {delay: coefficient} dicts (insertion order kept), a container of points
+    let getTerm (t : Json) : Except String (Int × GRat) :=
+      match t with
+      | Json.arr [k, c] => do pure (← getInt k, ← getG c)
+      | _ => throw "bad term"
+    let num ← getList getTerm (← field j "bt")
+    let den ← getList getTerm (← field j "at")
+    let ws ← getList getG (← field j "ws")
+    pure <| Json.mkObj [
+      ("model", arr respToJson (elementwise (respOfTerms num den) ws)),
+      ("spec", arr respToJson (elementwise (respSpecTerms num den) ws)),
+      ("ctor_model", Json.bool (mkFilterTerms num den).isNone),
+      ("ctor_spec", Json.bool (den.all (fun t => decide (t.2 = 0)))),
+      ("horner", Json.bool (match mkFilterTerms num den with
+          | some f => f.num.all (fun t => decide (0 ≤ t.1))
+          | none => false))]
+  | "bank" =>
+    let kind ← getStr (← field j "kind")
+    let bank ← getList getFilt (← field j "bank")
+    let ws ← getList getG (← field j "ws")
+    let (m, s) := if kind = "cascade"
+      then (elementwise (cascadeResp bank) ws, elementwise (cascadeSpec bank) ws)
+      else (elementwise (parallelResp bank) ws, elementwise (parallelSpec bank) ws)
+    pure <| Json.mkObj [
+      ("model", arr respToJson m), ("spec", arr respToJson s),
+      ("ctor_model", Json.bool (bank.any fun f => (mkFilter f.1 f.2).isNone)),
+      ("ctor_spec", Json.bool (bank.any fun f => f.2.all (fun c => decide (c = 0)))),
+      ("dens", arr (fun w => arr (fun (f : List GRat × List GRat) => gToJson (evalDirect f.2 w)) bank) ws)]
+  | "tree" =>
+    let t ← getBank (← field j "tree")
+    let ws ← getList getG (← field j "ws")
+    pure <| Json.mkObj [
+      ("model", arr respToJson (elementwise (fun w => Bank.resp w t) ws)),
+      ("spec", arr respToJson (elementwise (fun w => Bank.spec w t) ws)),
+      ("ctor_model", Json.bool (bankCtor false t)),
+      ("ctor_spec", Json.bool (bankCtor true t))]
+  | "dft" =>
+    let blk ← getList getG (← field j "blk")
+    let ws ← getList getG (← field j "ws")
+    let norm ← getBool (← field j "normalize")
+    let m := dft (fun (w : GRat) n => pw w n) blk ws norm
+    let s : Option (List GRat) :=
+      if norm ∧ blk.length = 0 ∧ ws ≠ [] then none else some (ws.map fun w => dftSpec w blk norm)
+    let enc : Option (List GRat) → Json
+      | none => Json.mkObj [("err", Json.str "ZeroDivisionError")]
+      | some l => arr gToJson l
+    pure <| Json.mkObj [("model", enc m), ("spec", enc s)]
+  | "fir" =>
+    -- time domain: FIR filter b on the input xs; optional steady-state check data
+    let b ← getList getG (← field j "b")
+    let xs ← getList getG (← field j "xs")
+    let m := firRun b xs
+    let s := firSpec b xs
+    -- impulse response / DFT link: dft of the model output at the points ws (unnormalised)
+    let ws ← getList getG (fieldD j "ws" (Json.arr []))
+    let dm := ws.map fun w => dftSum (fun n => pw w n) m
+    let hs := ws.map fun w => respSpec b [1] w
+    pure <| Json.mkObj [
+      ("model", arr gToJson m), ("spec", arr gToJson s),
+      ("dft_of_model", arr gToJson dm), ("H", arr respToJson hs)]
+  | "expo" =>
+    -- complex exponential x_n = u^n (u = e^{jω} = 1/w) through the FIR filter b, n < len
+    let b ← getList getG (← field j "b")
+    let u ← getG (← field j "u")
+    let n ← getNat (← field j "len")
+    let xs := (List.range n).map fun k => pw u k
+    let m := firRun b xs
+    let w : GRat := 1 / u
+    let h := evalDirect b w
+    let s := xs.map fun x => h * x        -- valid from index len(b)-1 on
+    pure <| Json.mkObj [
+      ("xs", arr gToJson xs), ("model", arr gToJson m), ("steady", arr gToJson s),
+      ("H", gToJson h), ("order", natToJson (b.length - 1))]
+  | _ => throw s!"C12: unknown entry {entry}"
 
 end ALV.Driver.C12
